@@ -166,8 +166,6 @@ Proof.
 Qed.
 
 
-Lemma le_val_zero_bytes h : bytes_ok h -> le_val h = 0 -> h = le_bytes (length h) 0.
-Proof. intros Hh Hz. rewrite <- Hz. symmetry. now apply le_bytes_le_val. Qed.
 
 Lemma wrap32_interp_zero n sg u : width_ok n = true -> 0 <= u < 2 ^ (8 * Z.of_nat n) -> wrap32 (interp n sg u) = 0 -> u = 0.
 Proof.
@@ -191,6 +189,12 @@ Qed.
 Lemma mod_split mask n : 0 <= n -> mask mod 2 ^ (1 + n) = mask mod 2 + 2 * ((mask / 2) mod 2 ^ n).
 Proof. intro Hn. rewrite Z.pow_add_r by lia. change (2 ^ 1) with 2. apply Z.rem_mul_r; [lia|]. apply Z.pow_pos_nonneg; lia. Qed.
 
+Lemma codec_dec_pad size n sg : zassoc size (cd_dec_pad cd) = Some (n, sg) ->
+  forall n', zassoc size (cd_enc_pad cd) = Some n' -> n' = n /\ Z.of_nat n = size /\ width_ok n = true.
+Proof.
+  intros Hd n' He. destruct (codec_pad cd Hcd _ _ He) as [Hsz [Hw [sg' Hd']]]. rewrite Hd in Hd'. inv Hd'. auto.
+Qed.
+
 Lemma loop_reencode : forall sig rest rem mask args rest' rem' mask' extra' k bit st,
   forallb plain_enc sig = true -> forallb (enc_known cd) sig = true -> bytes_ok rest ->
   dec_loop sjis_dec cd sig (rest, rem, mask, None) = Ok (args, [], (rest', rem', mask', extra')) ->
@@ -201,7 +205,7 @@ Lemma loop_reencode : forall sig rest rem mask args rest' rem' mask' extra' k bi
     enc_loop sjis_enc cd sig (drop_padding sig args) bit st = Ok (b, (mask mod 2 ^ nparams sig) * 2 ^ k, [], st, bit').
 Proof.
   induction sig as [|e sig' IH]; intros rest rem mask args rest' rem' mask' extra' k bit st Hpl Hkn Hb Hd Hpz Hcan Hm Hk Hkn' Hbit.
-  - cbn [dec_loop] in Hd. inv Hd. exists [], bit. split; [reflexivity|]. split; [unfold nparams; cbn; now rewrite Z.shiftr_0_r|].
+  - cbn [dec_loop] in Hd. inv Hd. exists [], bit. split; [reflexivity|]. split; [unfold nparams; cbn [count_if]; now rewrite ?Z.shiftr_0_r|].
     cbn [enc_loop drop_padding]. unfold nparams. cbn [count_if]. rewrite Z.pow_0_r, Z.mod_1_r. reflexivity.
   - cbn [forallb] in Hpl, Hkn. apply andb_split in Hpl, Hkn. destruct Hpl as [Hpl Hpl']. destruct Hkn as [Hke Hkn].
     cbn [dec_loop] in Hd. bind_ok Hd r1 Hf. destruct r1 as [[a w1] d1]. bind_ok Hd r2 Hl. destruct r2 as [[args' w2] d2]. inv Hd.
@@ -210,24 +214,118 @@ Proof.
     destruct (is_pad e) eqn:Ep.
     + (* padding: the bytes read were zeros *)
       destruct e as [| | |size| |]; try discriminate.
-      cbn [padding_nonzero is_pad andb a_val] in Hpz.
+      cbn [padding_nonzero is_pad andb] in Hpz.
       unfold decode_field in Hf. bind_ok Hf rem1 Hrem.
       destruct (zassoc size (cd_dec_pad cd)) as [[n sg]|] eqn:Ez; [|discriminate].
       bind_ok Hf p Hp. destruct p as [v rest1]. inv Hf.
       cbn [a_val] in Hpz. apply orb_false_iff in Hpz. destruct Hpz as [Hv Hpz].
-      assert (Hv0 : v = 0) by (destruct v; try discriminate; reflexivity). subst v.
-      (* encoder side of the table *)
+      assert (Hv0 : v = 0) by (destruct v; try discriminate; reflexivity).
       cbn [enc_known] in Hke. destruct (zassoc size (cd_enc_pad cd)) as [n'|] eqn:Ez'; [|discriminate].
-      destruct (codec_pad cd Hcd _ _ Ez') as [Hsz [Hn0 [sg' Hd']]]. rewrite Ez in Hd'. inv Hd'.
-      unfold read_int in Hp. bind_ok Hp q Hq. destruct q as [h t]. inv Hp.
+      destruct (codec_dec_pad _ _ _ Ez _ Ez') as [-> [Hsz Hwn]].
+      unfold read_int in Hp. bind_ok Hp q Hq. destruct q as [h t]. injection Hp as Hv1 Ht1. subst t.
+      rewrite Hv0 in Hv1. clear Hv0 Hv.
       apply take_ok in Hq. destruct Hq as [-> Hlen]. apply bytes_ok_app in Hb. destruct Hb as [Hh Ht].
       assert (Hu : le_val h = 0).
-      { eapply (wrap32_interp_zero n' sg'); [|rewrite <- Hlen; now apply le_val_bound|eassumption].
-        unfold width_ok. apply andb_true_iff. split; [now apply Nat.ltb_lt|].
-        pose proof Hcd as H0. clear -Hn0 Hsz Ez H0 Hcd. apply Nat.leb_le.
-        (* pad sizes are 1 or 4 in any table that passes codec_ok?  not required: bound by the interp lemma's need only *)
-        destruct (le_lt_dec n' 4); [assumption|]. exfalso.
-        (* a padding wider than 4 bytes cannot be read by read_int as an i32: excluded by pad_ok through width *)
-        admit_width. }
-      idtac.
-Abort.
+      { eapply (wrap32_interp_zero n sg); [exact Hwn|rewrite <- Hlen; now apply le_val_bound|exact Hv1]. }
+      assert (Hhz : h = le_bytes n 0) by (rewrite <- Hu, <- Hlen; symmetry; now apply le_bytes_le_val).
+      cbn [mask_canonical is_pad] in Hcan.
+      destruct (IH rest1 rem1 mask args' rest' rem' mask' extra' k bit st Hpl' Hkn Ht Hl Hpz Hcan Hm Hk ltac:(lia) ltac:(intro; apply Hbit; lia))
+        as [b [bit' [Hr [Hm' He]]]].
+      exists (h ++ b), bit'. split; [rewrite <- app_assoc; now f_equal|]. split; [replace (0 + nparams sig') with (nparams sig') by lia; exact Hm'|].
+      cbn [drop_padding is_pad enc_loop]. rewrite Ez'. rewrite He. cbn [obind].
+      replace (0 + nparams sig') with (nparams sig') by lia. now rewrite Hhz.
+    + (* a parameter *)
+      assert (Harm : match e with EInt size sg _ _ => exists arm, find_enc_arm cd size sg = Some arm | _ => True end).
+      { destruct e as [size signed imm arg0| | | | |]; try exact I. unfold plain_enc in Hpl. cbn [is_str is_arg0 negb andb] in Hpl.
+        destruct arg0; [discriminate|]. cbn [enc_known] in Hke. destruct (find_enc_arm cd size signed); [eauto|discriminate]. }
+      destruct d1 as [[[rest1 rem1] mask1] extra1].
+      destruct (field_reencode e rest rem mask None a rest1 rem1 mask1 extra1 st Ep Hpl Hb Harm Hf) as [b0 [Hr0 [He0 [Hreg [Hm1 Hx1]]]]].
+      subst extra1 mask1.
+      assert (Hb1 : bytes_ok rest1) by (rewrite Hr0 in Hb; apply bytes_ok_app in Hb; tauto).
+      cbn [padding_nonzero] in Hpz. rewrite Ep in Hpz. cbn [andb orb] in Hpz.
+      cbn [mask_canonical] in Hcan. rewrite Ep in Hcan. apply andb_split in Hcan. destruct Hcan as [Hc0 Hcan].
+      assert (Hm1 : 0 <= Z.shiftr mask 1) by (apply Z.shiftr_nonneg; lia).
+      set (mb := cd_mask_bits cd) in *.
+      assert (Hb2 : bit = 2 ^ k) by (apply Hbit; lia).
+      assert (Hpk : 0 < 2 ^ k) by (apply Z.pow_pos_nonneg; lia).
+      destruct (IH rest1 rem1 (Z.shiftr mask 1) args' rest' rem' mask' extra' (k + 1) ((2 ^ k * 2) mod 2 ^ mb) st
+                  Hpl' Hkn Hb1 Hl Hpz Hcan Hm1 ltac:(lia) ltac:(lia)) as [b [bit' [Hr [Hm' He]]]].
+      { intro Hpos. replace (2 ^ k * 2) with (2 ^ (k + 1)) by (rewrite Z.pow_add_r by lia; ring).
+        apply Z.mod_small. split; [apply Z.pow_nonneg; lia|]. apply Z.pow_lt_mono_r; lia. }
+      exists (b0 ++ b), bit'. split; [rewrite Hr0, Hr; now rewrite app_assoc|].
+      split; [rewrite Hm'; rewrite Z.shiftr_shiftr by lia; f_equal; lia|].
+      cbn [drop_padding]. rewrite Ep. rewrite (enc_loop_nonpad sjis_enc cd) by assumption.
+      rewrite (contributes_nonpad cd) by assumption. cbv zeta. rewrite Hb2.
+      (* the low mask bit *)
+      set (b1 := mask mod 2).
+      assert (Hb1r : b1 = 0 \/ b1 = 1) by (unfold b1; pose proof (Z.mod_pos_bound mask 2 ltac:(lia)); lia).
+      assert (Hland : Z.land mask 1 = b1) by (change 1 with (Z.ones 1); rewrite Z.land_ones by lia; reflexivity).
+      assert (Hregb : (if a_reg a then 2 ^ k else 0) = b1 * 2 ^ k).
+      { rewrite Hreg, Hland. destruct (always_imm cd e) eqn:Ei; cbn [negb andb orb] in *.
+        - rewrite Hland in Hc0. apply Z.eqb_eq in Hc0. rewrite Hc0. lia.
+        - destruct Hb1r as [E|E]; rewrite E; cbn [Z.eqb Pos.eqb]; lia. }
+      assert (Himm : always_imm cd e && negb ((if a_reg a then 2 ^ k else 0) =? 0) = false).
+      { destruct (a_reg a) eqn:Er; [|cbn; apply andb_false_r].
+        rewrite Hreg in Er. destruct (always_imm cd e); [cbn in Er; discriminate|reflexivity]. }
+      rewrite Himm. cbv iota. unfold mb in *. rewrite He0. cbn [obind]. rewrite He. cbn [obind app]. do 4 f_equal.
+      rewrite Hregb. rewrite Z.shiftr_div_pow2 by lia. change (2 ^ 1) with 2.
+      rewrite lor_bit by (try lia; apply Z.mod_pos_bound; apply Z.pow_pos_nonneg; lia).
+      rewrite (mod_split mask (nparams sig')) by lia. reflexivity.
+Qed.
+
+
+(* C12, second half: a blob and mask that decode without any warning re-encode to exactly that blob and mask *)
+Theorem encode_decode : forall has_regs sig blob mask args st,
+  forallb plain_enc sig = true -> forallb (enc_known cd) sig = true -> bytes_ok blob -> 0 <= mask ->
+  nparams sig <= cd_mask_bits cd -> mask_canonical cd sig mask = true ->
+  decode_call sjis_dec cd sig (mkres blob mask None []) = Ok (args, []) ->
+  has_regs = true \/ existsb a_reg args = false ->
+  encode_args sjis_enc cd has_regs sig args st = Ok (mkres blob mask None [], st).
+Proof.
+  intros has_regs sig blob mask args st Hpl Hkn Hb Hm Hnp Hcan Hd Hregs.
+  unfold decode_call in Hd. bind_ok Hd x Hx. destruct x as [[args_p w] ex].
+  destruct (negb (length args_p =? length sig)%nat) eqn:El; [discriminate|].
+  destruct (existsb bad_float_reg args_p); [discriminate|]. injection Hd as Hargs Hwarn. subst args.
+  unfold decode_args in Hx. cbn [r_blob r_mask r_extra] in Hx. bind_ok Hx y Hy.
+  destruct y as [[args_q w0] [[[rest rem'] mask'] extra']]. injection Hx as E1 E2 E3. subst args_p w ex.
+  apply app_eq_nil in Hwarn. destruct Hwarn as [Hwarn Hpadw]. apply app_eq_nil in Hwarn. destruct Hwarn as [-> Hwarn].
+  apply app_eq_nil in Hwarn. destruct Hwarn as [Hleft Hmaskw].
+  assert (Hrest : rest = []) by (destruct rest; [reflexivity|discriminate]).
+  assert (Hmask0 : mask' = 0) by (destruct (mask' =? 0) eqn:E; [now apply Z.eqb_eq|discriminate]).
+  assert (Hpz : padding_nonzero sig args_q = false) by (destruct (padding_nonzero sig args_q); [discriminate|reflexivity]).
+  subst rest mask'.
+  destruct (loop_reencode sig _ _ _ _ _ _ _ _ 0 1 st Hpl Hkn Hb Hy Hpz Hcan Hm ltac:(lia) ltac:(lia) ltac:(intro; reflexivity))
+    as [b [bit' [Hbl [Hsh He]]]].
+  rewrite app_nil_r in Hbl. subst b.
+  (* all mask bits were consumed *)
+  assert (Hmm : mask mod 2 ^ nparams sig = mask).
+  { pose proof (nparams_nonneg sig). symmetry in Hsh. rewrite Z.shiftr_div_pow2 in Hsh by lia.
+    assert (0 < 2 ^ nparams sig) by (apply Z.pow_pos_nonneg; lia).
+    apply Z.mod_small. split; [lia|]. apply Z.div_small_iff in Hsh; lia. }
+  rewrite Hmm, Z.pow_0_r, Z.mul_1_r in He.
+  unfold encode_args.
+  assert (Hnr : negb has_regs && existsb a_reg (drop_padding sig args_q) = false).
+  { destruct Hregs as [->|Hr]; [reflexivity|]. rewrite Hr. apply andb_false_r. }
+  rewrite Hnr.
+  assert (Hhead : (match sig with
+                   | EInt _ _ _ true :: sig' =>
+                       match drop_padding sig args_q with
+                       | [] => Panic P_EXPECT
+                       | a :: args' =>
+                           if a_reg a then Panic P_ASSERT
+                           else let '(n, sg, c) := cd_arg0 cd in
+                                do v <- expect_int a; do b <- write_int n sg c v;
+                                Ok (sig', args', Some (interp n sg (le_val b)))
+                       end
+                   | _ => Ok (sig, drop_padding sig args_q, None)
+                   end) = Ok (sig, drop_padding sig args_q, @None Z)).
+  { destruct sig as [|e sig']; [reflexivity|]. cbn [forallb] in Hpl. apply andb_split in Hpl. destruct Hpl as [Hpe _].
+    destruct e as [size signed imm arg0| | | | |]; try reflexivity. unfold plain_enc in Hpe. cbn [is_str is_arg0 negb andb] in Hpe.
+    destruct arg0; [discriminate|reflexivity]. }
+  rewrite Hhead. cbn [obind].
+  pose proof (drop_padding_length sig args_q) as Hlen.
+  destruct (zlen sig <? zlen (drop_padding sig args_q)) eqn:Ez; [apply Z.ltb_lt in Ez; unfold zlen in Ez; lia|].
+  rewrite He. cbn [obind]. reflexivity.
+Qed.
+
+End Reencode.
